@@ -1,8 +1,8 @@
 package clustersim
 
 import (
-	"encoding/json"
 	"context"
+	"encoding/json"
 	"fmt"
 	"os"
 	"runtime/debug"
@@ -49,6 +49,7 @@ type run struct {
 	models       map[dragonboat.ShardKey]*shardModel
 	lastL        map[string]uint64
 	seenL        map[string]map[uint64]bool
+	fwd          []*fwdOp          // C11 in situ: writes sent to follower nodes' own API
 	onceChecked  map[uint64]uint64 // follower shard -> log index the once-in-order oracle has read up to
 	onceLast     map[uint64]uint64 // follower shard -> leader index of the last replicated proposal seen
 	hist         []*histOp
@@ -75,6 +76,17 @@ func (r *run) fail(prop, oracle, sig, f string, a ...any) {
 	if r.cfg.Prop == "C07" && prop == "C05" {
 		// in C07 runs the follower-vs-leader oracle decides the snapshot-recovery half of C07
 		prop = "C07"
+	}
+	if oracle == "state-machine-fatal" {
+		// a state machine that failed or panicked halts its replica: whatever this run's property is, it
+		// cannot hold on a node that stopped applying
+		prop = r.cfg.Prop
+	}
+	if prop != r.cfg.Prop && prop != "HARNESS" {
+		// an oracle of another property, watched here as well: counted, but it must not end the run
+		// before this property's own oracles have looked (its own check reports it)
+		r.out.Probe("other-property:" + prop + "/" + oracle)
+		return
 	}
 	r.out.Fail(prop, oracle, sig, r.step, f, a...)
 }
@@ -487,6 +499,36 @@ func (r *run) execStep(st *Step) {
 		r.clientDelay[clientAddr(st.Client)] = time.Duration(st.DelayMs) * time.Millisecond
 		r.kvCall(n, st, 3*time.Second)
 		r.out.Probe("kv-" + st.Op)
+	case "fput", "fdel", "ftxn":
+		r.execFwd(st)
+	case "load":
+		// Cnt small pairs through the leader API, 100 per transaction
+		n := r.node(false, st.N)
+		if n == nil || !n.up {
+			return
+		}
+		tname := r.table(st.T)
+		kv := r.w.kvOf(7, n)
+		for at := 0; at < st.Cnt && !r.failed(); at += 100 {
+			req := &regattapb.TxnRequest{Table: []byte(tname)}
+			for i := at; i < at+100 && i < st.Cnt; i++ {
+				h := core.Mix(uint64(st.K), uint64(i))
+				val := make([]byte, h%141)
+				for j := range val {
+					val[j] = byte('a' + (h>>8+uint64(j)*7)%26)
+				}
+				key := []byte(fmt.Sprintf("l/%05d%s", i, strings.Repeat("k", int(h>>20)%17)))
+				req.Success = append(req.Success, &regattapb.RequestOp{Request: &regattapb.RequestOp_RequestPut{RequestPut: &regattapb.RequestOp_Put{Key: key, Value: val}}})
+			}
+			ctx, cancel := ctxT(10 * time.Second)
+			_, err := kv.Txn(ctx, req)
+			cancel()
+			if err != nil {
+				// a refused or failed load only makes the run smaller; what is in the log is what counts
+				r.out.Probe("load-txn-error")
+			}
+		}
+		r.out.Probe("table-loaded-with-many-small-pairs")
 	case "raw":
 		r.execRaw(st)
 	case "ccreate", "cdelete", "clist":
